@@ -113,6 +113,7 @@ class UDSServer(ABC):
         if (
             self._is_sub_function_request(request)
             and request.service_id != UDSIsoServices.RoutineControl
+            and len(request.pdu) >= 2
         ):
             supported_in_active_session = False
             supported_in_other_session = False
